@@ -123,6 +123,9 @@ class RelativeSequence(AbstractSequence):
                     note_list = open_messages[msg.channel].get(msg.note, [])
                     if len(note_list) > 0:
                         note_list.pop(-1)
+                    else:
+                        # Skip message if note was never opened
+                        continue
                     open_messages[msg.channel][msg.note] = note_list
 
                     # Skip message if note not yet closed
